@@ -285,6 +285,10 @@ func opAdmission() error {
 					break steps
 				}
 				got := r.srv.handleAddPeerMsg(state, sp)
+				if t, ok := banAt[st.Host]; ok && !st.Res.Admitted && time.Since(t) > banDur*9/10 {
+					unreliable = true // the call itself was delayed to the edge of the ban: no verdict from this behaviour
+					break steps
+				}
 				if got != st.Res.Admitted {
 					miss(k, "admit", fmt.Sprintf("add(%s, host %d) admitted=%v", st.Dir, st.Host, st.Res.Admitted), fmt.Sprint(got))
 				}
